@@ -67,3 +67,28 @@ CHECKS.update({
 })
 for _k in list(CHECKS):
     NOT_APPLICABLE.pop(_k, None)
+
+CHECKS.update({
+    "C11": dict(level="exploration", ref="DESIGN.md section 6 C11",
+                text="The real reducer is run against every interleaving of the real workers' message streams (complete enumeration whenever there are <= 5000, adversarial corners + 400 seeded ones otherwise), under two legal statistics payloads, and compared with the sequential solver: multiset, optimum, None iff infeasible, queue drained at return, aggregated statistics; real forked workers with injected delays confirm the shim.",
+                note="assumes per-producer FIFO of multiprocessing.Queue; OS schedules are sampled; exhaustive only per case, as reported in evidence",
+                technique="schedule shim enumerating message interleavings against the real reducer + delay injection on real processes"),
+    "C12": dict(level="exploration", ref="DESIGN.md section 6 C12",
+                text="A post-condition wrapper on the real Problem.split is run exhaustively over a in [-4,4], size 1..9, k 1..size+3, own/alias variable (original unchanged, parts differ only in that domain, ranges partition [a,b]); on random models every part is enumerated on the real solver and the union compared with brute force.",
+                note="interval arithmetic exhaustive in the stated scope; solution-set part sampled",
+                technique="post-condition monitor on split (exhaustive small scope) + differential union check"),
+    "C13": dict(level="exploration", ref="DESIGN.md section 6 C13",
+                text="Metamorphic relations (de-aliasing, constraint/variable permutation, duplicated constraint, always-true constraint, translation) are checked between real solver runs on random models in both modes and on the shipped models at sizes far beyond brute force.",
+                note="relations need no oracle; cost-based heuristics replaced by generic ones in rewritten models",
+                technique="metamorphic runtime monitor comparing solution multisets and optima of rewritten models"),
+    "C18": dict(level="fault_enumeration", ref="DESIGN.md section 6 C18",
+                text="The fault space worker x number of workers (1-4) x death point (before first message, before/after each solution message, before the completion marker) x manner (SIGKILL, os._exit, exception) x operation is enumerated on two small models with real forked workers; a structural oracle (no producer alive and caller inside Queue.get(timeout=None), or 60 s without return after the last death) decides 'blocked forever'. Quick runs a seeded subset of 128 cases, thorough all 1080.",
+                note="complete for the small models used, not for all problems; crash points are made well defined by flushing the worker's feeder thread first",
+                technique="fault injection at enumerated crash points in real worker processes + structural deadlock oracle"),
+    "C20": dict(level="exploration", ref="DESIGN.md section 6 C20",
+                text="Each of the 14 shipped model families is solved over a size sweep and several configurations in compiled mode; every solution goes through an independent definition-level validator, counts and optima are compared with literature values or own enumerations (Held-Karp, subset DP, ruler search, sum-free colourings, backtracking sudoku), and symmetry-breaking variants are related to the plain models.",
+                note="validators know each model's variable layout; literature constants listed in evidence assumptions",
+                technique="definition-level validators and independent reference solvers applied to every produced object"),
+})
+for _k in list(CHECKS):
+    NOT_APPLICABLE.pop(_k, None)
